@@ -51,21 +51,20 @@ def parseSt (c : Char) : Option St :=
 
 open NA.Linux.Spec in
 /-- `s~neg~ip~len~h`, `d~…`, `i~neg~name`, `p~neg~proto~upper~num`, `sp~(1|r)~lo~hi~zeros~open`, `dp~…`,
-`syn~neg~flags`, `it~t`, `m~name`, `st~LETTERS`, `j~t`, `g~t`, `ll~lvl~debug`, `mk~hex~x~val`, `ts~ip`. -/
+`syn~neg~flags`, `it~t`, `m~name`, `st~LETTERS`, `j~t`, `g~t`, `ll~lvl~debug`, `mk~hex~mask~x~val`, `ts~ip`. -/
 def parseOpt (x : Str) : Option AOpt :=
   match splitChar x '~' with
   | [k, a, b, c, d] =>
     if k = s "s" then some (.src (parseNeg a) b c (isT d))
     else if k = s "d" then some (.dst (parseNeg a) b c (isT d))
     else if k = s "p" then some (.proto (parseNeg a) (parseProto b) (isT c) (isT d))
+    else if k = s "mk" then some (.setMark a b (isT c) d)
     else none
   | [k, a, b, c, d, e] =>
     let ps : Ports := if a = s "1" then .one b else .range b c
     if k = s "sp" then some (.sport ps (toNat d) (isT e))
     else if k = s "dp" then some (.dport ps (toNat d) (isT e))
     else none
-  | [k, a, b, c] =>
-    if k = s "mk" then some (.setMark a (isT b) c) else none
   | [k, a, b] =>
     if k = s "i" then some (.inIf (parseNeg a) b)
     else if k = s "syn" then some (.syn (isT a) (isT b))
@@ -130,6 +129,7 @@ def specAnswer (fs : List Str) : Option Str :=
       let rules := t.flatMap fun tb => tb.chains.flatMap (·.rules)
       let why := (rules.flatMap fun r =>
         if decide (NA.C05.RuleOK cfg r) then []
+        else if r.any (fun o => match o with | .setMark _ m _ _ => m != s "ffffffff" | _ => false) then [s "mark_with_mask"]
         else if !(decide ((userOpts r).map fun o => (NA.C05.pkv o).1).Nodup &&
                   decide ((kernelOpts cfg r).map fun o => (NA.C05.pkv o).1).Nodup) then [s "repeated_option_key"]
         else [s "option_outside_grammar"]).eraseDups
